@@ -11,6 +11,7 @@ package main
 
 import (
 	"fmt"
+	"go/token"
 	"strings"
 
 	"golang.org/x/tools/go/ssa"
@@ -369,6 +370,82 @@ func scannerBytesRetained(c *Ctx, rule string, fs []*ssa.Function) {
 					}
 					if retained != "" {
 						c.bad(rule, "scanner.Bytes() retained in "+strings.TrimPrefix(fname(f), "poly/"), r.Pos(), "the slice returned by scanner.Bytes() is "+retained+" without being copied: it points into the scanner's buffer, which the next Scan overwrites, so lines collected earlier change afterwards (long or many-line records come back corrupted)")
+					}
+				}
+			}
+		})
+	}
+}
+
+// frameAlignment: codon functions read their input in frames of three letters from offset 0. When the
+// input is processed block by block, every block boundary has to fall on a frame boundary: a constant
+// block size (a slice bound of the sequence, or the step of an index that slices it) that is not a
+// multiple of 3 drops or shifts letters at each boundary. One violation per such constant; nothing otherwise.
+func frameAlignment(c *Ctx, rule string, fs []*ssa.Function) {
+	seen := map[string]bool{}
+	for _, f := range fs {
+		tb := newTB(f)
+		eachInstr(f, func(i ssa.Instruction) {
+			sl, ok := i.(*ssa.Slice)
+			if !ok || !isStringType(sl.X.Type()) {
+				return
+			}
+			// the thing sliced is (derived from) a string parameter of f
+			x := tb.T(sl.X)
+			fromParam := false
+			x.walk(func(t *Term) {
+				if t.Op == "param" {
+					fromParam = true
+				}
+			})
+			if ph, isPhi := sl.X.(*ssa.Phi); isPhi && !fromParam {
+				for _, e := range ph.Edges {
+					if _, isP := e.(*ssa.Parameter); isP {
+						fromParam = true
+					}
+				}
+			}
+			if !fromParam {
+				return
+			}
+			for _, b := range []ssa.Value{sl.Low, sl.High} {
+				if b == nil {
+					continue
+				}
+				var ks []int64
+				if k, ok := tb.T(b).constInt(); ok {
+					ks = append(ks, k)
+				}
+				// an index stepping by a constant
+				var ph *ssa.Phi
+				switch y := b.(type) {
+				case *ssa.Phi:
+					ph = y
+				case *ssa.BinOp:
+					if p, ok := y.X.(*ssa.Phi); ok {
+						ph = p
+						if k, ok := tb.T(y.Y).constInt(); ok && y.Op == token.ADD {
+							ks = append(ks, k)
+						}
+					}
+				}
+				if ph != nil {
+					for _, e := range ph.Edges {
+						if bo, ok := e.(*ssa.BinOp); ok && bo.Op == token.ADD && bo.X == ssa.Value(ph) {
+							if k, ok := tb.T(bo.Y).constInt(); ok {
+								ks = append(ks, k)
+							}
+						}
+					}
+				}
+				for _, k := range ks {
+					if k >= 4 && k%3 != 0 {
+						key := fmt.Sprintf("%s:%d", fname(f), k)
+						if seen[key] {
+							continue
+						}
+						seen[key] = true
+						c.bad(rule, fmt.Sprintf("block size %d in %s is a multiple of the codon length", k, strings.TrimPrefix(fname(f), "poly/")), sl.Pos(), fmt.Sprintf("the sequence is processed in blocks of %d letters; %d is not a multiple of 3, so at every block boundary %d letter(s) of a codon are cut off and every later codon is read out of frame (only inputs longer than one block show it)", k, k, k%3))
 					}
 				}
 			}
